@@ -2,8 +2,10 @@ package main
 
 // C06 — lossy decode equals the encoder's own reconstruction (no drift).
 //
-// For generated pictures x lossy options, on the forced-serial and the
-// forced-parallel encoder paths: the hook VerifEncodeLossyRecon returns the
+// For generated pictures x lossy options, on the encoder path the package itself
+// chooses for the picture and the options (serial or row-parallel; the other,
+// forced, path is a state the options cannot reach: it is evaluated and counted
+// as an observation, never reported): the hook VerifEncodeLossyRecon returns the
 // emitted VP8 bytes and the encoder's Y/U/V planes after EncodeFrame.
 // Correspondence / specification: the extracted RFC 6386 decoder reconstructs
 // the bytes (before the loop filter) -> must equal the hook planes.
@@ -19,6 +21,7 @@ import (
 	"image/color"
 	"runtime"
 	"runtime/debug"
+	"sync/atomic"
 
 	webp "github.com/deepteams/webp"
 
@@ -108,7 +111,18 @@ func (e *c06Case) tag() string {
 		o.TargetSize, o.TargetPSNR, o.QMin, o.QMax, o.UseSharpYUV)
 }
 
-func run(c *Ctx, e *c06Case, im *image.NRGBA) {
+// run evaluates one picture x options.  force 0: the path the encoder chooses (reportable);
+// force 1 / 2: serial / parallel forced through the verif override - an encoder state outside the
+// property's quantifier when it is not the chosen one: every finding becomes an "observation:" count.
+func run(c *Ctx, e *c06Case, im *image.NRGBA, force int) {
+	report := force == 0
+	violate := func(key, desc string, replay any) {
+		if report {
+			c.Violate(key, desc, replay)
+		} else {
+			c.Count("observation:forced-path:" + key)
+		}
+	}
 	tag := e.tag()
 	cls := ""
 	if e.Opts.TargetSize > 0 || e.Opts.TargetPSNR > 0 {
@@ -117,72 +131,78 @@ func run(c *Ctx, e *c06Case, im *image.NRGBA) {
 	replay := map[string]any{"tag": tag, "options": e.Opts, "w": e.W, "h": e.H, "kind": e.Kind, "pix": hex.EncodeToString(im.Pix)}
 	defer func() {
 		if r := recover(); r != nil {
-			c.Violate("panic", fmt.Sprint(r), replay)
+			violate("panic", fmt.Sprint(r), replay)
 		}
 	}()
-	mode := 1
-	if e.Path == "parallel" {
-		mode = 2
+	if force != 0 {
+		webp.VerifSetParallel(siteUseParallel, force)
+		defer webp.VerifResetOverrides()
 	}
-	webp.VerifSetParallel(siteUseParallel, mode)
-	defer webp.VerifResetOverrides()
 	c.D.Evaluations++
 	bs, w, h, ry, ru, rv, err := webp.VerifEncodeLossyRecon(im, &e.Opts)
 	if err != nil {
 		c.Count("encode-error")
 		return
 	}
-	c.Count("path:" + e.Path)
-	c.Count(fmt.Sprintf("kind%d", e.Kind))
-	c.Count(fmt.Sprintf("method%d", e.Opts.Method))
-	c.Nontrivial(tag)
-	c.Sample(tag)
-	// correspondence + specification: the model reconstructs the bytes
-	if !e.NoModel {
-		c.Case("recon "+tag+" "+hex.EncodeToString(bs), fmt.Sprintf("ok %d %d %s.%s.%s", w, h, digest(ry), digest(ru), digest(rv)))
-		// the model emitter reproduces the encoder's bytes from the syntax recovered from them
-		// (every stream in the quick tier, every third one in the thorough tier)
-		if c.Thorough() && c.D.Evaluations%3 != 0 {
-			goto goSide
-		}
-		c.Case("reemit "+tag+" "+hex.EncodeToString(bs), "same")
-		// the encoder reconstruction model on the recovered choices = the encoder's planes
-		c.Case("encrecon "+tag+" "+hex.EncodeToString(bs), fmt.Sprintf("ok %d %d %s.%s.%s", w, h, digest(ry), digest(ru), digest(rv)))
+	if !report {
+		c.Count("observation:forced-path-evaluated")
+	} else {
+		c.Count("path:" + e.Path)
+		c.Count(fmt.Sprintf("kind%d", e.Kind))
+		c.Count(fmt.Sprintf("method%d", e.Opts.Method))
+		c.Nontrivial(tag)
+		c.Sample(tag)
 	}
-goSide:
+	// preconditions of the evaluation itself (not clauses of the property): the hook's planes have the
+	// source's size, and the hook runs the same encoder as the public entry point
 	if w != e.W || h != e.H {
-		c.Violate("dims", fmt.Sprintf("reconstruction %dx%d, source %dx%d", w, h, e.W, e.H), replay)
+		c.Count("observation:hook-planes-have-another-size")
+		return
 	}
-	// the hook runs the same encoder as the public entry point
 	var buf bytes.Buffer
 	if err := webp.Encode(&buf, im, &e.Opts); err != nil || !bytes.Equal(vp8Payload(buf.Bytes()), bs) {
-		c.Violate("hook-bytes-differ-from-encode", "VerifEncodeLossyRecon and webp.Encode emit different VP8 data", replay)
+		c.Count("observation:hook-bytes-differ-from-encode")
+		return
+	}
+	// correspondence + specification: the model reconstructs the bytes
+	if report && !e.NoModel {
+		c.Case("recon "+tag+" "+hex.EncodeToString(bs), fmt.Sprintf("ok %d %d %s.%s.%s", w, h, digest(ry), digest(ru), digest(rv)))
+		// the encoder reconstruction model on the choices recovered from the bytes = the encoder's planes
+		// (every stream in the quick tier, every third one in the thorough tier).  The model emitter's
+		// bytes are no longer compared with the encoder's: exact bytes are a representation.
+		if !c.Thorough() || c.D.Evaluations%3 == 0 {
+			c.Case("encrecon "+tag+" "+hex.EncodeToString(bs), fmt.Sprintf("ok %d %d %s.%s.%s", w, h, digest(ry), digest(ru), digest(rv)))
+		}
 	}
 	// Go decoder, before the loop filter
 	dw, dh, dy, du, dv, derr := webp.VerifLossyDecodeFrame(bs, true)
 	if derr != nil {
-		c.Violate("encoder-output-undecodable", derr.Error(), replay)
+		violate("encoder-output-undecodable", derr.Error(), replay)
 		return
 	}
 	if dw != e.W || dh != e.H {
-		c.Violate("dims", fmt.Sprintf("decoded %dx%d, source %dx%d", dw, dh, e.W, e.H), replay)
+		violate("dims", fmt.Sprintf("decoded %dx%d, source %dx%d", dw, dh, e.W, e.H), replay)
 	}
 	if !bytes.Equal(dy, ry) || !bytes.Equal(du, ru) || !bytes.Equal(dv, rv) {
-		c.Violate("drift:"+cls+e.Path, "decoder reconstruction (before the loop filter) differs from the encoder's reconstruction", replay)
+		violate("drift:"+cls+e.Path, "decoder reconstruction (before the loop filter) differs from the encoder's reconstruction", replay)
 	}
 	// public decode; with the loop filter off it must be the reconstruction itself
 	img, perr := webp.Decode(bytes.NewReader(buf.Bytes()))
 	if perr != nil {
-		c.Violate("encoder-output-undecodable", perr.Error(), replay)
+		violate("encoder-output-undecodable", perr.Error(), replay)
 		return
 	}
 	if img.Bounds().Dx() != e.W || img.Bounds().Dy() != e.H {
-		c.Violate("dims", fmt.Sprintf("webp.Decode %v, source %dx%d", img.Bounds(), e.W, e.H), replay)
+		violate("dims", fmt.Sprintf("webp.Decode %v, source %dx%d", img.Bounds(), e.W, e.H), replay)
 	}
 	if e.Opts.FilterStrength == 0 {
 		c.Count("filter-off")
 		yc, ok := img.(*image.YCbCr)
-		same := ok
+		if !ok {
+			c.Count("observation:public-decode-returns-another-image-type")
+			return
+		}
+		same := true
 		cw, ch := (w+1)/2, (h+1)/2
 		for j := 0; j < h && same; j++ {
 			same = bytes.Equal(yc.Y[j*yc.YStride:j*yc.YStride+w], ry[j*w:(j+1)*w])
@@ -192,17 +212,32 @@ goSide:
 				bytes.Equal(yc.Cr[j*yc.CStride:j*yc.CStride+cw], rv[j*cw:(j+1)*cw])
 		}
 		if !same {
-			c.Violate("drift-filter-off:"+cls+e.Path, "webp.Decode planes differ from the encoder's reconstruction although FilterStrength is 0", replay)
+			violate("drift-filter-off:"+cls+e.Path, "webp.Decode planes differ from the encoder's reconstruction although FilterStrength is 0", replay)
 		}
 	}
+}
+
+// chosenPath names the path the encoder takes by itself for the picture and the options: the
+// row-parallel encoder passes synchronisation points (verif yield callback), the serial one none.
+func chosenPath(im *image.NRGBA, o *webp.EncoderOptions) string {
+	var hit atomic.Bool
+	webp.VerifSetYield(func(point, y, x int) { hit.Store(true) })
+	defer webp.VerifSetYield(nil)
+	if _, _, _, _, _, _, err := webp.VerifEncodeLossyRecon(im, o); err != nil {
+		return "serial"
+	}
+	if hit.Load() {
+		return "parallel"
+	}
+	return "serial"
 }
 
 func main() {
 	Main("c06", func(c *Ctx) {
 		c.D.Rule = "encoder reconstruction planes (hook) = specification decoder's pre-filter planes of the emitted bytes = Go decoder's pre-filter planes; = webp.Decode planes at FilterStrength 0; dimensions = source dimensions; serial and parallel encoder paths"
 		rng := c.Rng.Fork()
-		sizes := [][2]int{{1, 1}, {15, 17}, {16, 16}, {33, 65}, {64, 64}, {17, 1}, {1, 33}, {48, 32}, {31, 31}, {64, 17}, {40, 80}, {72, 56}}
-		n := 90
+		sizes := [][2]int{{1, 1}, {15, 17}, {16, 16}, {33, 65}, {64, 64}, {17, 1}, {1, 33}, {48, 32}, {31, 31}, {64, 17}, {40, 80}, {72, 56}, {24, 72}, {56, 49}}
+		n := 112
 		if c.Thorough() {
 			n = 1500
 			sizes = append(sizes, [2]int{128, 128}, [2]int{100, 130}, [2]int{255, 63}, [2]int{200, 90})
@@ -241,10 +276,19 @@ func main() {
 			}
 			e.Opts = *o
 			im := genImage(r, e.W, e.H, e.Kind)
-			for _, path := range []string{"serial", "parallel"} {
+			e.Path = chosenPath(im, &e.Opts)
+			run(c, e, im, 0)
+			// the path the encoder did not choose: observation only (every second picture)
+			if i%2 == 0 {
 				e2 := *e
-				e2.Path = path
-				run(c, &e2, im)
+				e2.Group = "forced:"
+				if e.Path == "serial" {
+					e2.Path = "parallel"
+					run(c, &e2, im, 2)
+				} else {
+					e2.Path = "serial"
+					run(c, &e2, im, 1)
+				}
 			}
 		}
 		rateControlCases(c)
@@ -296,7 +340,7 @@ func rateControlCases(c *Ctx) {
 				k++
 				e := &c06Case{W: w, H: h, Kind: kind, Path: "serial", Group: "rate:", Opts: o}
 				c.Count(fmt.Sprintf("ratecontrol:pass%d", ps))
-				run(c, e, im)
+				run(c, e, im, 0)
 			}
 		}
 	}
@@ -331,8 +375,8 @@ func pooledPairCases(c *Ctx) {
 			ew := &c06Case{W: pr[0], H: h, Kind: kind, Path: "parallel", Group: "pairwide:", Opts: *o, NoModel: true}
 			en := &c06Case{W: pr[1], H: h, Kind: kind, Path: "parallel", Group: "pairnarrow:", Opts: *o}
 			c.Count("pooled-pair")
-			run(c, ew, wide)
-			run(c, en, narrow)
+			run(c, ew, wide, 0)
+			run(c, en, narrow, 0)
 		}
 	}
 }
